@@ -339,6 +339,45 @@ func (c *evalCtx) eval(x Expr) SQLVal {
 				return a
 			}
 			return sqlIte(cnd.truth(), a, b)
+		case "coalesce", "ifnull":
+			// first non-NULL argument
+			if len(n.args) == 0 {
+				break
+			}
+			r := c.eval(n.args[len(n.args)-1])
+			for i := len(n.args) - 2; i >= 0; i-- {
+				a := c.eval(n.args[i])
+				if a.K == kNullK {
+					continue
+				}
+				if r.K == kNullK {
+					r = a
+					continue
+				}
+				r = sqlIte(tNot(a.Null), a, r)
+			}
+			return r
+		case "max", "min":
+			// scalar (multi-argument) form on integers: NULL if any argument is NULL
+			if len(n.args) >= 2 {
+				r := c.eval(n.args[0]).asInt()
+				for _, ax := range n.args[1:] {
+					a := c.eval(ax).asInt()
+					op := "bvsgt"
+					if n.name == "min" {
+						op = "bvslt"
+					}
+					r = SQLVal{K: kInt, Null: tOr(r.Null, a.Null), I: tIte(tBVCmp(op, a.I, r.I), a.I, r.I)}
+				}
+				return r
+			}
+		case "case":
+			// CASE WHEN c1 THEN v1 ... [ELSE e] END, args = c1, v1, ..., e (ELSE NULL if absent)
+			r := c.eval(n.args[len(n.args)-1])
+			for i := len(n.args) - 3; i >= 0; i -= 2 {
+				r = sqlIte(c.eval(n.args[i]).truth(), c.eval(n.args[i+1]), r)
+			}
+			return r
 		}
 		panic(pathEnd{kind: "unsupported", msg: "SQL function " + n.name})
 	case *EIn:
